@@ -44,7 +44,7 @@ def run_mutant(m, base):
     for unit in m['unit'].split(','):
         p = subprocess.run([os.path.join(ROOT, 'check'), '--unit', unit], env=env, capture_output=True, text=True)
         for l in p.stdout.split('\n'):
-            mm = re.match(r"\s+FAIL (\S+) props=\[([^\]]*)\] src=\S+ detail=(.*?) :: ", l)
+            mm = re.match(r"\s+FAIL (.+?) props=\[([^\]]*)\] src=\S+ detail=(.*?) :: ", l)
             if mm:
                 fails.append((mm.group(1), [x.strip(" '") for x in mm.group(2).split(',') if x.strip()], mm.group(3)))
             if l.strip().startswith('MACHINERY') or 'VACUOUS' in l:
@@ -68,7 +68,7 @@ def seeded_mutants():
             continue
         for prop, c in meta['checks'].items():
             if c['exit'] == 1 and prop in unit_of and prop == meta.get('breaks_property'):
-                names = [v for v in c['violations'] if not v.startswith('kani:')]
+                names = [v for v in c['violations'] if not v.startswith('kani:') and not v.startswith('exec:')]
                 if not names:
                     continue
                 out.append({'id': 'seed-%s-%s' % (sid, prop), 'props': [prop], 'unit': ','.join(unit_of[prop]['units']),
@@ -85,7 +85,7 @@ def run(prop=None):
     for unit in sorted(set(u for m in ms for u in m['unit'].split(','))):
         p = subprocess.run([os.path.join(ROOT, 'check'), '--unit', unit], capture_output=True, text=True)
         for l in p.stdout.split('\n'):
-            mm = re.match(r"\s+FAIL (\S+) props=\[([^\]]*)\] src=\S+ detail=(.*?) :: ", l)
+            mm = re.match(r"\s+FAIL (.+?) props=\[([^\]]*)\] src=\S+ detail=(.*?) :: ", l)
             if mm:
                 base_fail.add((mm.group(1), mm.group(3)))
     base = os.path.join(SCRATCH, 'verif-selftest-%d' % os.getpid())
